@@ -56,6 +56,14 @@ CHECKS = {
             "(used, duplicate, unused, defining the unknown id, unknown unused, without TZID), parsed and API-built: get_used/get_missing equal the reference sets and never fail; after add_missing_timezones "
             "every known missing id has exactly one VTIMEZONE, unknown ids stay missing, existing VTIMEZONEs are untouched, and two further calls add nothing.",
             "trusted: the placement table in checks/c18.py; add_missing_timezones is called with a 2024 window (default window for single placements) to keep generation cheap", "3/C18"),
+    "C14": ("bounded-exhaustive enumeration of components x alarm lists (all single alarms of the TRIGGER x RELATED x REPEAT/DURATION product, pairs/triples over a reduced menu) executed on the real Alarms computation vs. a reference model",
+            "2 component kinds x 6 start kinds (incl. a zoned start 12h before a DST change) x 4 end kinds x 168 single alarm shapes x {API, parsed} x {zoneinfo, pytz} plus all ordered pairs "
+            "(thorough: triples) of a reduced menu: per alarm the sequence anchor+TRIGGER+k*DURATION, the multiset of all times, Alarm.triggers, and the documented error classes exactly where information is missing or invalid.",
+            "trusted: refmodel/alarms.py; 'plus' = provider-native addition (wall-clock zoneinfo / normalize pytz)", "3/C14"),
+    "C15": ("exhaustive enumeration of the acknowledgement decision table (all weak orderings of trigger, alarm ack, component ack, snooze on a 5-point grid, each possibly absent) x trigger kind x local zone x provider x build path on the real AlarmTime logic",
+            "All 6x6x6 combinations of ACKNOWLEDGED / DTSTAMP-or-X-MOZ-LASTACK / X-MOZ-SNOOZE-TIME relative to the trigger, for zoned, UTC, floating and date triggers, with the local zone unset / by name / by object, "
+            "both providers, three build paths (setters, typed add, parsed) and 1-2 alarms: is_active, the reported trigger, the active sub-list, monotonicity in the acknowledgement and 'only LocalTimezoneMissing' are compared with the statement's table.",
+            "trusted: refmodel/alarms.py (10-line decision table); floating/date triggers interpreted in the configured local zone", "3/C15"),
 }
 REASON_PENDING = "check under construction in this session; not claimed until it has been built, silenced on the unchanged tree and shown to detect a seeded change"
 ALL = [f"C{i:02d}" for i in range(1, 21)]
